@@ -116,10 +116,15 @@ def passAxis (shape : List Nat) (ax : Nat) (fo : Array Int × Array Int) : Array
              acc.2.setIfInBounds (i + qv.1 * st) (fo.2.getD (i + qv.2 * st) 0))) acc)
     fo
 
-/-- the fill value for foreground pixels chosen in `distance.py` / `segmentation.py` -/
+def sumSq : List Nat → Int
+  | [] => 0
+  | s :: ss => (s : Int) * (s : Int) + sumSq ss
+
+/-- the fill value for foreground pixels chosen in `distance.py` / `segmentation.py`:
+    `len(shape)*max(shape)**2+1` for 2-D, `sum(s*s for s in shape)+1` otherwise -/
 def sentinel (shape : List Nat) : Int :=
   if shape.length == 2 then 2 * ((shape.foldl max 0 : Nat) : Int) ^ 2 + 1
-  else (shape.foldl (fun (a : Int) (s : Nat) => a + (s : Int) * (s : Int)) 0) + 1
+  else sumSq shape + 1
 
 /-- `distance(bw)` (metric `euclidean2`) together with the tracked origins:
     `bw` non-zero = foreground; axes are processed in order -/
@@ -128,10 +133,44 @@ def distanceModel (shape : List Nat) (bw : Array Int) : Array Int × Array Int :
   let o0 : Array Int := ((List.range (shapeSize shape)).map fun (i : Nat) => (i : Int)).toArray
   (List.range shape.length).foldl (fun fo ax => passAxis shape ax fo) (f0, o0)
 
+/-! ### the same passes at the level of coordinates
+
+`distance.py` reaches the lines of an n-D array through `np.moveaxis`/`np.ndindex` views, i.e.
+logically: every pixel receives the value of the 1-D transform of the line through it along the
+axis. `distanceCoord` states the passes in this form (no strides); the driver runs it next to the
+flat/stride form above and the harness insists that both agree with the implementation. -/
+
+/-- the root chosen by the read-out walk for abscissa `q` -/
+def ownerAt (f : Array Int) (q : Nat) : Nat := (owners1d f).getD q 0
+
+/-- the line through `p` along axis `ax` -/
+def lineOf (im : Img Int) (p : List Int) (ax : Nat) : Array Int :=
+  ((List.range (im.shape.getD ax 0)).map fun (t : Nat) => im.getD (p.set ax (t : Int)) 0).toArray
+
+/-- one pass along axis `ax`: values and tracked origins (flat indices) -/
+def passCoord (fo : Img Int × Img Int) (ax : Nat) : Img Int × Img Int :=
+  (Img.tabulate fo.1.shape fun p =>
+      let line := lineOf fo.1 p ax
+      let q := (p.getD ax 0).toNat
+      valueAt line q (ownerAt line q),
+   Img.tabulate fo.1.shape fun p =>
+      let line := lineOf fo.1 p ax
+      let q := (p.getD ax 0).toNat
+      fo.2.getD (p.set ax ((ownerAt line q : Nat) : Int)) 0)
+
+/-- the initial images: 0 on the background, the fill value elsewhere; origins = own flat index -/
+def initCoord (shape : List Nat) (bw : Array Int) : Img Int × Img Int :=
+  (Img.tabulate shape fun p => if bw.getD (ravelI shape p) 0 == 0 then 0 else sentinel shape,
+   Img.tabulate shape fun p => ((ravelI shape p : Nat) : Int))
+
+def distanceCoord (shape : List Nat) (bw : Array Int) : Img Int × Img Int :=
+  (List.range shape.length).foldl passCoord (initCoord shape bw)
+
 /-! ### specification -/
 
-def sqDist (p q : List Int) : Int :=
-  (subPos p q).foldl (fun a d => a + d * d) 0
+def sqDist : List Int → List Int → Int
+  | a :: as, b :: bs => (a - b) * (a - b) + sqDist as bs
+  | _, _ => 0
 
 /-- minimum squared distance from `p` to a pixel where `sel` holds; `none` if there is none -/
 def nearest2 (shape : List Nat) (sel : Array Bool) (p : List Int) : Option Int :=
@@ -144,8 +183,9 @@ def nearest2 (shape : List Nat) (sel : Array Bool) (p : List Int) : Option Int :
       else m) none
 
 /-- largest attainable squared distance inside the box -/
-def maxDist2 (shape : List Nat) : Int :=
-  shape.foldl (fun (a : Int) (s : Nat) => a + ((s : Int) - 1) * ((s : Int) - 1)) 0
+def maxDist2 : List Nat → Int
+  | [] => 0
+  | s :: ss => ((s : Int) - 1) * ((s : Int) - 1) + maxDist2 ss
 
 /-- `edt2`: at every pixel the minimum squared distance to the background, `-1` when there is none -/
 def edtSpec (shape : List Nat) (bw : Array Int) : List Int :=
@@ -171,17 +211,20 @@ def handle (a : Args) : String :=
   match a.str "kind" with
   | "dist" =>
     let bw := (a.ints "data").toArray
-    let m := (distanceModel shape bw).1
+    let m := (distanceCoord shape bw).1.data
+    let fl := (distanceModel shape bw).1
     let spec := edtSpec shape bw
-    s!"spec={showInts spec} model={showInts m.toList} maxd={maxDist2 shape}"
+    s!"spec={showInts spec} model={showInts m.toList} flat={showInts fl.toList} maxd={maxDist2 shape}"
   | "gvor" =>
     -- labels; background of the transform = labelled pixels
     let lab := (a.ints "data").toArray
     let bw := lab.map fun l => if l == 0 then (1 : Int) else 0
-    let o := (distanceModel shape bw).2
+    let o := (distanceCoord shape bw).2.data
     let model := o.toList.map fun i => lab.getD i.toNat 0
+    let ofl := (distanceModel shape bw).2
+    let flat := ofl.toList.map fun i => lab.getD i.toNat 0
     let acc := (allPos shape).map (voronoiSpec shape lab)
-    s!"acc={showAcc acc} model={showInts model}"
+    s!"acc={showAcc acc} model={showInts model} flat={showInts flat}"
   | "dt1d" =>
     let f := (a.ints "data").toArray
     let spec := (List.range f.size).map (minPlus1d f)
